@@ -7,6 +7,8 @@ import (
 )
 
 func init() {
+	verifRegister("VerifC19ParseTail", VerifC19ParseTail)
+	verifRegister("VerifC20ParseTail", VerifC20ParseTail)
 	verifRegister("VerifC19Lexer", VerifC19Lexer)
 	verifRegister("VerifC20Lexer", VerifC20Lexer)
 	verifRegister("VerifC19ParseMutated", VerifC19ParseMutated)
@@ -134,6 +136,34 @@ func verifParseMutated(lang LexerLanguage, skeletons []string) {
 	verifCover("rejected")
 	verifCheckParseError(err, s)
 }
+
+// parser states reached by a valid prefix, then EVERY byte string of <= tailN bytes, then an optional valid ending: the parser
+// is entered in each of its contexts (field start / scale factor, type expression, type application, arithmetic operand,
+// template argument, mask bit, repetition, result type, function section, tag) with arbitrary continuation
+var verifTL1Contexts = []string{"a ", "a x:", "a x:(b ", "a 1+", "a {", "a n:# x:n.", "a x:3*[", "a = ", "---functions---\n@read f ", "a#", "a x:%", "a x:(b 1 + ", "a x:!"}
+var verifTL1Endings = []string{"", " = A;", ") = A;"}
+var verifTL2Contexts = []string{"a = ", "a = x:", "a = x:[", "a<", "@read f ", "a = b | ", "a <=> ", "a = x?:", "a#", "a<x:Type> = v:[", "a = x:b<", "@read f x:int32 => "}
+var verifTL2Endings = []string{"", ";", "] ;", "> ;"}
+
+func verifParseTail(lang LexerLanguage, contexts, endings []string) {
+	s := contexts[verifChoice(len(contexts))] + verifStringN(verifLen(verifParam("tailN", 2))) + endings[verifChoice(len(endings))]
+	opts := LexerOptions{LexerLanguage: lang}
+	var err error
+	if lang == TL1 {
+		_, err = ParseTLFile(s, "f.tl", opts)
+	} else {
+		_, err = ParseTL2File(s, "f.tl2", opts)
+	}
+	if err == nil {
+		verifCover("parsed")
+		return
+	}
+	verifCover("rejected")
+	verifCheckParseError(err, s)
+}
+
+func VerifC19ParseTail() { verifParseTail(TL1, verifTL1Contexts, verifTL1Endings) }
+func VerifC20ParseTail() { verifParseTail(TL2, verifTL2Contexts, verifTL2Endings) }
 
 func VerifC19ParseMutated() { verifParseMutated(TL1, verifTL1Skeletons) }
 func VerifC20ParseMutated() { verifParseMutated(TL2, verifTL2Skeletons) }
